@@ -744,6 +744,16 @@ impl RtpTransport {
             return self.transport.send(buf).await;
         };
 
+        // A raw RTCP buffer gets the SRTCP transform. Run through the RTP transform
+        // below it would leave with its first bytes (reportee SSRC, loss counters) in
+        // the clear and with a constant "sequence number" / SSRC - two reports would
+        // share one keystream - and the peer's unprotect_rtcp would reject it anyway.
+        if crate::rtp::is_rtcp(buf) {
+            let mut raw = buf.to_vec();
+            session.lock().protect_rtcp(&mut raw)?;
+            return self.transport.send_rtcp(&raw).await;
+        }
+
         let protected = {
             let mut packet = RtpPacket::parse(buf)?;
 
